@@ -365,6 +365,9 @@ def history(rng: random.Random, profile: Optional[Profile] = None, asset: str = 
                 if value > 0:
                     row["fin_wf"] = dstr(value)
             sim.credit_in(account, amount)
+            if row["cfee"] and Decimal(row["cfee"]) > 0:
+                # the crypto fee of an acquisition leaves the account again at the same instant (artificial fee-only disposal)
+                sim.debit(account, Decimal(row["cfee"]))
             lots.append(amount)
             rows.append(row)
         elif kind == "OUT":
